@@ -211,13 +211,33 @@ Definition replay_event (s : cstate) (e : zs) : option cstate :=
   | _ => None
   end.
 
+Definition ev_g (e : zs) : Z := match e with g :: _ => g | _ => -1 end.
+Definition ev_kind (e : zs) : Z := match e with _ :: k :: _ => k | _ => -1 end.
+
+(* A send on the wake-up channel to a receiver that is parked in its select hands the token over directly; the receiver
+   runs on at once and may log its "case chosen" event before the sender logs its own. The two events are concurrent:
+   when the log order cannot be followed, the other order of two adjacent select events of different goroutines is tried. *)
 Fixpoint replay (s : cstate) (log : list zs) (idx : Z) : cstate * option Z :=
   match log with
   | [] => (s, None)
-  | e :: rest => match replay_event s e with
-                 | Some s' => replay s' rest (idx + 1)
-                 | None => (s, Some idx)
-                 end
+  | e :: rest =>
+      match replay_event s e with
+      | Some s' => replay s' rest (idx + 1)
+      | None =>
+          match rest with
+          | e2 :: rest2 =>
+              if (ev_kind e =? 4) && (ev_kind e2 =? 4) && negb (ev_g e =? ev_g e2) then
+                match replay_event s e2 with
+                | Some s1 => match replay_event s1 e with
+                             | Some s2 => replay s2 rest2 (idx + 2)
+                             | None => (s, Some idx)
+                             end
+                | None => (s, Some idx)
+                end
+              else (s, Some idx)
+          | [] => (s, Some idx)
+          end
+      end
   end.
 
 Definition pc_code (p : pc) : Z :=
